@@ -114,6 +114,19 @@ def known_keys():
 ENV["VERIF_KNOWN"] = known_keys()
 
 
+def pick_samples(samples):
+    # up to 2 samples per registered property, at most 8 in total, smallest first
+    by = {}
+    for sm in sorted(samples, key=lambda x: len(json.dumps(x))):
+        by.setdefault(sm.get("prop", ""), [])
+        if len(by[sm.get("prop", "")]) < 2:
+            by[sm.get("prop", "")].append(sm)
+    out = []
+    for k in sorted(by):
+        out += by[k]
+    return out[:8]
+
+
 def findings_for(pid):
     p = os.path.join(VERIF, "known_findings.json")
     if not os.path.exists(p):
@@ -250,8 +263,7 @@ def main():
             for kk, v in (s.get("per_prop") or {}).items():
                 merged["per_prop"][kk] = merged["per_prop"].get(kk, 0) + v
             merged["seeds"] += s.get("seeds") or []
-            if len(merged["samples"]) < 6:
-                merged["samples"] += (s.get("samples") or [])[:2]
+            merged["samples"] += (s.get("samples") or [])
             a = array.array("Q")
             with open(pfx + ".nt", "rb") as f:
                 a.frombytes(f.read())
@@ -277,7 +289,7 @@ def main():
             "evaluations": merged["evaluations"],
             "distinct_nontrivial": len(hashes),
             "rule": conf["rule"],
-            "samples": merged["samples"][:6],
+            "samples": pick_samples(merged["samples"]),
             "requested": merged["requested"],
             "inconclusive_cases": merged["inconclusive"],
             "classes": dict(sorted(merged["classes"].items())),
